@@ -145,6 +145,66 @@ func (p *Prog) DeepSourcesStop(v ssa.Value, depth int, throughCallers bool, stop
 					continue
 				}
 			case *ssa.UnOp:
+				// a field of an object built by the module and handed on by pointer (a builder, a parameter
+				// bundle): when the object is a literal whose field is assigned exactly once, where it is
+				// built, the load denotes that value
+				if fa, ok := x.X.(*ssa.FieldAddr); ok && x.Op == token.MUL && depth > 0 && sink == nil {
+					if _, direct := fa.X.(*ssa.Alloc); !direct {
+						var bases []ssa.Value
+						sink = func(lv ssa.Value, sfr *frame, sd int) bool {
+							bases = append(bases, lv)
+							return true
+						}
+						walk(fa.X, fr, depth-1)
+						sink = nil
+						var stored []ssa.Value
+						okAll := len(bases) > 0
+						for _, b := range bases {
+							a, isAlloc := b.(*ssa.Alloc)
+							if !isAlloc || a.Referrers() == nil {
+								okAll = false
+								break
+							}
+							n := 0
+							for _, r := range *a.Referrers() {
+								if f2, ok := r.(*ssa.FieldAddr); ok && f2.Field == fa.Field && f2.Referrers() != nil {
+									for _, rr := range *f2.Referrers() {
+										if st, ok := rr.(*ssa.Store); ok && st.Addr == ssa.Value(f2) {
+											stored = append(stored, st.Val)
+											n++
+										}
+									}
+								}
+							}
+							if n != 1 {
+								okAll = false
+							}
+						}
+						// nobody else writes that field of that type
+						if okAll {
+							key := TypeField(fa)
+							total := 0
+							for _, fn := range p.Funcs {
+								EachInstr(fn, func(in ssa.Instruction) {
+									if st, ok := in.(*ssa.Store); ok {
+										if f3, ok := st.Addr.(*ssa.FieldAddr); ok && TypeField(f3) == key {
+											total++
+										}
+									}
+								})
+							}
+							if total != len(stored) {
+								okAll = false
+							}
+						}
+						if okAll {
+							for _, sv := range stored {
+								walk(sv, nil, depth-1)
+							}
+							continue
+						}
+					}
+				}
 				// the same for a struct value spilled into a local (value receivers, parameters whose
 				// address is taken): *(&local.f) where local was assigned a whole struct value
 				if fa, ok := x.X.(*ssa.FieldAddr); ok && x.Op == token.MUL && depth > 0 && sink == nil {
